@@ -152,6 +152,7 @@ func (o *oracle) onWrite(wr store.Write) {
 		if act := o.actorOf(wr.Actor); act != nil && act.cur != nil {
 			if state == string(model.StatePendingDeletion) && act.host != k.Host && act.cur.kind == opAutoAssign {
 				w.r.Probe("reclaim_of_foreign_empty_block_started")
+				w.reclaiming[wr.Actor] = cidr // the Stall hook slows this reclaimer down before it deletes the block
 			}
 			if o.affState(key) == string(model.StatePendingDeletion) && state == string(model.StatePending) && act.host == k.Host {
 				w.r.Probe("owner_revives_claim_marked_for_deletion")
@@ -254,9 +255,14 @@ func (o *oracle) checkAffinities(cidr string, seq int) {
 	}
 	r.Check("one_confirmed_owner", len(confirmed) <= 1, "block %s is confirmed as affine to %v at event %d", cidr, confirmed, seq)
 	if len(confirmed) == 1 {
-		// A confirmed claim is backed by the block's own record: every path that removes a block (or its
-		// affinity field) first takes the claim out of the confirmed state with a compare-and-swap.
-		r.Check("confirmed_claim_has_block", o.blocks[cidr] != nil, "%s holds a confirmed claim on block %s, but the block does not exist (event %d)", confirmed[0], cidr, seq)
+		// A confirmed claim whose block does not exist is not yet a violation of the property as stated, but it is
+		// the state in which any other host may create the block for itself (the search for a usable block looks
+		// at blocks only).  Let another host try exactly that, as one atomic operation at the next scheduling
+		// step - a legal schedule; one_confirmed_owner then judges the outcome.
+		if o.blocks[cidr] == nil {
+			r.Probe("confirmed_claim_without_block")
+			o.w.queueOpportunist(cidr, strings.TrimPrefix(confirmed[0], "host:"))
+		}
 		if b := o.blocks[cidr]; b != nil {
 			r.Check("block_matches_confirmed_claim", b.affinity == "" || b.affinity == confirmed[0],
 				"block %s records affinity %q but the confirmed claim is held by %q (event %d)", cidr, b.affinity, confirmed[0], seq)
